@@ -27,7 +27,7 @@ RULE = ('a real EventMgr on a temp root and the in-memory ZooKeeper holding /pla
         'loss while a watch-triggered synchronisation reads a manifest - and after every change the cache must mirror the '
         'placement. Watch notifications are delivered on a separate thread (as kazoo does); os._exit is intercepted as '
         'the death of the process, after which a new agent is started on a new session (the supervisor); a '
-        'service that keeps exiting is checked after six restarts. Every other shard runs under the C locale without '
+        'service that exits four times in a row before reaching a heartbeat is checked as it stands. Every other shard runs under the C locale without '
         'UTF-8 mode (text files are ASCII); manifests may contain non-ASCII text. Distinct by '
         '(case, app, point).')
 ASSUMPTIONS = ['in-memory ZooKeeper fake; real filesystem under a temp dir', 'EventMgr._hostname set by the harness',
@@ -247,7 +247,8 @@ def service_loop_case(ctx, idx, rng):
         os._exit = fake_exit
         srv.sync_delivery = False
         try:
-            for incarnation in range(6):
+            in_a_row, last_exit_step = 0, -1
+            for incarnation in range(64):
                 zk = srv.client('eventmgr-%d' % incarnation)
                 current['zk'] = zk
                 context.GLOBAL.zk._conn = zk       # pylint: disable=protected-access
@@ -262,14 +263,18 @@ def service_loop_case(ctx, idx, rng):
                     log.append(('process-exit-and-restart',))
                     srv.expire(zk.sid)
                     del exited[:]
+                    in_a_row = in_a_row + 1 if last_exit_step == n_step[0] else 1
+                    last_exit_step = n_step[0]
+                    if in_a_row >= 4:
+                        # the service dies again and again before it reaches a heartbeat: restarting does not help,
+                        # what is placed never gets its cache file
+                        check('four restarts in a row without reaching a heartbeat')
+                        break
                     continue
                 except Exception:      # noqa
                     et, ev, tb = sys.exc_info()
                     ctx.violation('exception:%s@run' % et.__name__, str(ev), witness=traceback.format_exc()[-800:], case=dict(case=idx, log=log[-12:]))
                     break
-            else:
-                # the service keeps exiting: whatever is placed must still get its cache file eventually
-                check('six restarts in a row')
         finally:
             _time.sleep = real_sleep
             os._exit = real_exit
